@@ -64,6 +64,9 @@ def run(prop, tier, seed, work, ev):
         c = work.path("wrap.cases")
         gen(work, "wrap", c, t["wrapN"])
         rejects += run_and_judge("parentheses around every span of every sentence <= %d tokens" % t["wrapN"], c, work, ev, drv, prop)
+        c = work.path("ws.cases")
+        gen(work, "ws", c, 3)
+        rejects += run_and_judge("every sentence <= 3 tokens with CR / CR LF / runs of blanks between, before and after its tokens", c, work, ev, drv, prop)
         c = work.path("amp.cases")
         gen(work, "amp", c, 0)
         rejects += run_and_judge("an ampersand before every token of 30 skeleton sentences with calls", c, work, ev, drv, prop)
